@@ -36,6 +36,36 @@ static inline bool id3v2_validate(const uint8_t *p, uint32_t size)
     return id3v2_get_total_size(p) == size;
 }
 
+/* ---- frames (ID3v2.4 structure document, section 4: 4-character identifier, synchsafe size, 2 flag octets) ---- */
+#define ID3V2_FRAME_HEADER_SIZE 10
+#define ID3V2_FRAME_ID(a, b, c, d) (((uint32_t)(a) << 24) | ((uint32_t)(b) << 16) | ((uint32_t)(c) << 8) | (uint32_t)(d))
+static inline uint32_t id3v2_frame_get_id(const uint8_t *frame) { return ID3V2_FRAME_ID(frame[0], frame[1], frame[2], frame[3]); }
+static inline uint32_t id3v2_frame_get_size(const uint8_t *frame)
+{ return ((uint32_t)(frame[4] & 0x7f) << 21) | ((frame[5] & 0x7f) << 14) | ((frame[6] & 0x7f) << 7) | (frame[7] & 0x7f); }
+static inline const uint8_t *id3v2_frame_get_data(const uint8_t *frame) { return frame + ID3V2_FRAME_HEADER_SIZE; }
+/* next frame of a complete tag (NULL after the last one); never returns a frame that is not entirely inside the tag body.
+ * An extended header (flag 40h) is skipped. Padding (identifier starting with 00h) ends the iteration. */
+static inline const uint8_t *id3v2_next_frame(const uint8_t *tag, const uint8_t *frame)
+{
+    const uint8_t *end = tag + ID3V2_HEADER_SIZE + id3v2_get_size(tag);
+    const uint8_t *next;
+    if (frame == NULL) {
+        next = tag + ID3V2_HEADER_SIZE;
+        if (tag[5] & 0x40) {
+            if (end - next < 4) return NULL;
+            uint32_t x = ((uint32_t)(next[0] & 0x7f) << 21) | ((next[1] & 0x7f) << 14) | ((next[2] & 0x7f) << 7) | (next[3] & 0x7f);
+            if (x < 4 || x > (uint32_t)(end - next)) return NULL;
+            next += x;
+        }
+    } else
+        next = frame + ID3V2_FRAME_HEADER_SIZE + id3v2_frame_get_size(frame);
+    if (next > end || end - next < ID3V2_FRAME_HEADER_SIZE || next[0] == 0) return NULL;
+    if (id3v2_frame_get_size(next) > (uint32_t)(end - next) - ID3V2_FRAME_HEADER_SIZE) return NULL;
+    return next;
+}
+#define id3v2_each_frame(TAG, FRAME) \
+    for (const uint8_t *FRAME = id3v2_next_frame(TAG, NULL); FRAME != NULL; FRAME = id3v2_next_frame(TAG, FRAME))
+
 static inline bool id3v2_unsynchronise(const uint8_t *tag, uint8_t *out, uint32_t *size_p)
 {
     uint32_t body = id3v2_get_size(tag), total = id3v2_get_total_size(tag), extra = 0;
